@@ -9,6 +9,12 @@ NOTE_COMMON = ("Trusted base: z3 5.1.0, CrossHair 0.0.110 symbolic models of str
                "Verdicts hold inside the stated bounds only; INCONCLUSIVE obligations are listed in the evidence and are never counted as discharged.")
 
 CHECKS = {
+ "C20": dict(
+    technique="direct z3 queries over every BMP code point on the live illegal-name-character regexes (translated from the compiled pattern objects) against an expat oracle; bounded symbolic execution (CrossHair) of toXmlName/fromXmlName/coerce* with characters by symbolic index",
+    text="(a) z3: for every BMP code point, in first and non-first position, the character classes of nonXmlNameFirstBMPRegexp / nonXmlNameBMPRegexp (read from the live objects) keep only characters expat accepts, replace no legal colon-free character, and the escape alphabet U/0-9/A-F is itself legal; same for the pubid class vs the XML PubidChar production. "
+         "(b) CrossHair: toXmlName/coerceElement/coerceAttribute/fromXmlName on all names up to length 3 (quick) / 4 (thorough) over a 12-character class alphabet: result accepted by expat, legal names unchanged, round trip, injectivity (thorough); coerceComment on all Unicode strings up to length 5/7 with symbolic flags; coercePubid up to length 3.",
+    note="expat is the XML-name oracle (XML 1.0 4th ed.); alphabet-to-all-characters step rests on (a) and on toXmlName using characters only through the two regexes; non-BMP outside the claim. " + NOTE_COMMON,
+    design="§3 C20"),
  "C18": dict(
     technique="bounded symbolic execution of the real alphabetical-attributes filter (CrossHair/z3): attribute keys by symbolic index over a collision alphabet, values/types unbounded symbolic strings; z3 injectivity lemma on the sort key",
     text="Bounded model checking of alphabeticalattributes.Filter.__iter__ and _attr_key: for every ordered selection of 0..3 distinct keys from a 10-key alphabet that contains the None/''/namespace collision shapes, with unbounded symbolic values, "
